@@ -358,6 +358,9 @@ def drive_given(pid, sub, tier, n, seedval, stats, known):
     @_settings(n, sub.shrink[tier])
     @given(sub.strategy(tier))
     def body(spec):
+        # what is checked is exactly what a replay file would contain: the JSON image of the generated spec (no shared
+        # sub-objects, no tuples) -- otherwise a failure might not reproduce from its replay file
+        spec = json.loads(canon(spec))
         out, new = evaluate(pid, sub, spec, stats, known, record='fail' not in holder)
         if new:
             holder['fail'] = {'sub': sub.name, 'spec': spec,
@@ -412,6 +415,7 @@ def drive_machine(pid, sub, tier, n, seedval, stats, known):
 
         @initialize(params=sub.params_strategy(tier))
         def _init(self, params):
+            params = json.loads(canon(params))
             self.params = params
             try:
                 self.state = sub.init(params, self.out)
@@ -475,7 +479,7 @@ def drive_machine(pid, sub, tier, n, seedval, stats, known):
         def fn(self, **kw):
             op = {'op': opname}
             op.update(kw)
-            self._step(op)
+            self._step(json.loads(canon(op)))
         fn.__name__ = str('op_' + opname)
         fn = rule(**args)(fn)
         fn = precondition(lambda self: self.state is not None and sub.precondition(self.state, opname))(fn)
